@@ -979,6 +979,148 @@ def directed_scripts():
     return out
 
 
+
+# ---------------------------------------------------------------------------------------------
+# the real commands of commands.py: which reply answers which request
+# ---------------------------------------------------------------------------------------------
+ARG_TO_FIELD = {'enable': 'enabled'}
+
+
+def _fill(ftype, fname=''):
+    if fname == 'ip':
+        return '1.2.3.4'
+    t = getattr(ftype, '__name__', None) or str(ftype)
+    t = t.replace('typing.', '')
+    if t.startswith('Optional') or t.startswith('list') or t.startswith('List'):
+        return [] if 'list' in t.lower() else None
+    if t == 'bool':
+        return False
+    if t == 'int':
+        return 0
+    if t == 'str':
+        return 'x'
+    if t == 'UserStats':
+        from aioslsk.protocol.primitives import UserStats
+        return UserStats(0, 0, 0, 0)
+    return None
+
+
+def real_command_cases():
+    """(command class, argument names, index of the one argument in which request B differs from request A)"""
+    import inspect
+    from aioslsk import commands as C
+    from aioslsk.network.connection import ServerConnection
+    out = []
+    for name, cls in sorted(vars(C).items()):
+        if not (inspect.isclass(cls) and issubclass(cls, C.BaseCommand) and cls is not C.BaseCommand):
+            continue
+        if name in ('TrackUserCommand',):        # goes through the tracking worker (C15)
+            continue
+        if cls.build_expected_response is C.BaseCommand.build_expected_response:
+            continue
+        if cls.__init__ is object.__init__:
+            continue                             # no arguments: two such requests are the same request
+        args = [a for a in inspect.signature(cls.__init__).parameters if a != 'self']
+        out.append((name, args))
+    return out
+
+
+def run_command_pair(name, args, j):
+    """Two concurrent execute(response=True) of one command class whose arguments differ only in position j; the server answers
+    request A only.  Returns the observation."""
+    import dataclasses
+    import inspect
+    from vlib.world import World
+    from aioslsk import commands as C
+    from aioslsk.network.connection import ServerConnection
+    from aioslsk.protocol.messages import AddUser
+    from aioslsk.protocol.primitives import UserStats
+    cls = getattr(C, name)
+    sig = inspect.signature(cls.__init__).parameters
+
+    def val(a, variant):
+        ann = str(sig[a].annotation)
+        if 'bool' in ann:
+            return bool(variant)
+        if 'int' in ann:
+            return 3 + variant
+        return f'{a}{variant + 1}'
+    a_args = {a: val(a, 0) for a in args}
+    b_args = dict(a_args)
+    b_args[args[j]] = val(args[j], 1)
+    w = World()
+    try:
+        w.start()
+        w.login()
+        w.server_send(AddUser.Response('me', True, 2, UserStats(1, 2, 3, 4), 'BE'))
+        w.settle(10)
+        client = w.client
+        ca, cb = cls(**a_args), cls(**b_args)
+        era = ca.build_expected_response(client)
+        if era is None or era.connection_class is not ServerConnection:
+            return None
+        ta = w.loop.create_task(client.execute(ca, response=True, timeout=5))
+        tb = w.loop.create_task(client.execute(cb, response=True, timeout=5.25))
+        w.loop.run_ready(10)
+        listed = len(client.network._expected_response_futures)
+        # the reply that answers request A: the response class the command itself names, carrying A's arguments
+        R = era.message_class
+        kw = {}
+        fields = [f.name for f in dataclasses.fields(R)]
+        for f in dataclasses.fields(R):
+            src = [a for a in args if ARG_TO_FIELD.get(a, a) == f.name]
+            if src:
+                kw[f.name] = a_args[src[0]]
+            elif f.name == 'username' and 'username' not in args:
+                kw[f.name] = client.session.user.name
+            elif f.default is dataclasses.MISSING and f.default_factory is dataclasses.MISSING:
+                kw[f.name] = _fill(f.type, f.name)
+        w.server.feed(R(**kw).serialize())
+        w.loop.run_ready(10)
+        done_a, done_b = ta.done(), tb.done()
+        w.loop.advance(6)
+        w.loop.run_ready(10)
+
+        def outcome(t):
+            if not t.done():
+                return 'pending'
+            if t.cancelled():
+                return 'cancelled'
+            e = t.exception()
+            return 'result' if e is None else type(e).__name__
+        # B is answered by A's reply iff it agrees with A on every argument that is a field of the reply
+        answers_b = ARG_TO_FIELD.get(args[j], args[j]) not in fields
+        return {'command': name, 'a': {k: str(v) for k, v in a_args.items()}, 'b': {k: str(v) for k, v in b_args.items()}, 'differs_in': args[j],
+                'listed_before': listed, 'done_a': done_a, 'done_b': done_b, 'final_a': outcome(ta), 'final_b': outcome(tb),
+                'answers_b': answers_b, 'residue': len(client.network._expected_response_futures)}
+    finally:
+        try:
+            w.loop.run_coro(w.client.stop(), timeout_virtual=30.0, max_iters=20000)
+        except Exception:
+            pass
+        w.close()
+
+
+def command_pair_violations(o):
+    v = []
+    if o is None:
+        return v
+    what = f"{o['command']}: requests A{o['a']} and B{o['b']} pending together, the server answers A only"
+    if o['listed_before'] != 2:
+        v.append(('command-not-registered', f"{what}: {o['listed_before']} requests listed while both commands wait", o))
+        return v
+    if not o['done_a'] or o['final_a'] == 'TimeoutError':
+        v.append(('reply-does-not-complete-its-request', f'{what}: A was not completed by its reply ({o["final_a"]})', o))
+    if o['done_b'] and not o['answers_b']:
+        v.append(('reply-completes-other-request', f"{what}: B, which differs in `{o['differs_in']}`, was completed by A's reply", o))
+    if not o['answers_b'] and not o['done_b'] and o['final_b'] != 'TimeoutError':
+        v.append(('timeout-not-reported', f'{what}: B got {o["final_b"]} instead of TimeoutError', o))
+    if o['answers_b'] and not o['done_b']:
+        v.append(('reply-does-not-complete-its-request', f"{what}: B does not differ in any field of the reply but was not completed", o))
+    if o['residue']:
+        v.append(('residue', f'{what}: {o["residue"]} requests still listed at the end', o))
+    return v
+
 # ---------------------------------------------------------------------------------------------
 def classify(run, script, tr, viol):
     """Turn monitor output into findings.  Known keys are only attached to violations of exactly that shape."""
@@ -1047,12 +1189,27 @@ def run(run: Run):
     for _ in range(n):
         do(gen_script(run.rng), 'random')
 
+    # the real commands of commands.py, two concurrent requests of one class differing in exactly one argument
+    for name, args in real_command_cases():
+        for j in range(len(args)):
+            try:
+                o = run_command_pair(name, args, j)
+            except Exception as e:
+                run.add_broken('correspondence:C12 harness (command pairs)', f'{name} differing in {args[j]}: {type(e).__name__}: {e}')
+                continue
+            if o is None:
+                continue
+            run.case({'command_pair': [name, args[j]]}, kind='command-pair')
+            for key, what, detail in command_pair_violations(o):
+                run.add_finding(Finding(key, what, {'command_pair': [name, args, j], 'detail': detail}, observed=detail))
+
     # shrink the witness of any finding that is not listed (helps the reader of the replay file)
     known = {k for k, _, f in run.known_witnesses() if not f}
     for f in run.findings:
         if f.key not in known:
             try:
-                f.witness = {'script': shrink_script(f.witness['script'], f.key), 'detail': f.witness.get('detail')}
+                if 'script' in f.witness:
+                    f.witness = {'script': shrink_script(f.witness['script'], f.key), 'detail': f.witness.get('detail')}
             except Exception:
                 pass
 
@@ -1080,6 +1237,14 @@ def run(run: Run):
 
 
 def replay(rep) -> int:
+    if 'command_pair' in rep['witness']:
+        name, args, j = rep['witness']['command_pair']
+        o = run_command_pair(name, args, j)
+        print(o)
+        viol = command_pair_violations(o)
+        for v in viol:
+            print('VIOLATION', v[0], v[1])
+        return 1 if viol else 0
     script = rep['witness']['script']
     tr = run_script(script)
     print('script:', script)
